@@ -39,6 +39,8 @@ def runLine (l : String) : String :=
         match C07.residue f with
         | [] => none
         | ks => some (f.name ++ ":" ++ ",".intercalate ks)
+      -- monomorphic type definitions of the stage environment must be closed too
+      let open_ := if stage == "core" then open_ else open_ ++ (C07.defResidues S.enums S.structs)
       let w := if bad.isEmpty then "wt" else "ill"
       let c := if open_.isEmpty then "closed" else "open"
       s!"{id}\t{w}\t{c}\t{" ;; ".intercalate bad}\t{" ;; ".intercalate open_}"
